@@ -41,6 +41,7 @@ type Exec struct {
 	oos       []string       // out-of-subset notes
 	notes     map[string]bool
 	freshN    int
+	initialClock string // ghost clock readings at unit entry (shared constant)
 	opaqueAx  map[string]string // defining axioms of opaque predicates, by symbol
 	cellN     int
 	typeTags  map[string]int64
@@ -1540,7 +1541,15 @@ func (x *Exec) loopEntry(st *State, fr *Frame, lp *Loop, pv map[*ssa.Phi]Val) {
 		if !ok {
 			break
 		}
-		fr.vals[ph] = x.havocLike(st, phiName(ph), ph.Type(), pv[ph])
+		if sv, isWin := pv[ph].(SliceV); isWin && !reslicedOnly(ph, lp) {
+			// the loop may bind the variable to another backing array (append, make, a call
+			// result): after any number of iterations it is some sequence, not a window
+			// onto the array it started with
+			_ = sv
+			fr.vals[ph] = x.symVal(st, phiName(ph), ph.Type())
+		} else {
+			fr.vals[ph] = x.havocLike(st, phiName(ph), ph.Type(), pv[ph])
+		}
 		if _, isIface := fr.vals[ph].(IfaceV); isIface {
 			fr.vals[ph] = pv[ph]
 		}
@@ -1649,4 +1658,46 @@ func (x *Exec) smoke(st *State, fr *Frame, name string) {
 	q := &Query{Unit: fnName(x.unit), Name: fnName(x.unit) + "#smoke." + fr.prefix + name, Kind: "smoke", Goal: "false",
 		Decls: st.decls.slice(), Assumes: st.assumes.slice(), PathID: x.pathN, Smoke: true}
 	x.queries = append(x.queries, q)
+}
+
+// reslicedOnly reports whether every value the phi receives from inside the loop is the
+// phi itself, resliced (p = p[n:], p = p[:k]): only then does it stay a window onto the
+// same backing array.
+func reslicedOnly(ph *ssa.Phi, lp *Loop) bool {
+	inLoop := func(b *ssa.BasicBlock) bool { return lp.body[b] || b == lp.header }
+	var derives func(v ssa.Value, seen map[ssa.Value]bool) bool
+	derives = func(v ssa.Value, seen map[ssa.Value]bool) bool {
+		if v == ph {
+			return true
+		}
+		if seen[v] {
+			return true
+		}
+		seen[v] = true
+		switch u := v.(type) {
+		case *ssa.Slice:
+			return derives(u.X, seen)
+		case *ssa.Phi:
+			if !inLoop(u.Block()) {
+				return false
+			}
+			for _, e := range u.Edges {
+				if !derives(e, seen) {
+					return false
+				}
+			}
+			return true
+		}
+		return false
+	}
+	for i, e := range ph.Edges {
+		pred := ph.Block().Preds[i]
+		if !inLoop(pred) {
+			continue // entry edge
+		}
+		if !derives(e, map[ssa.Value]bool{}) {
+			return false
+		}
+	}
+	return true
 }
